@@ -284,6 +284,8 @@ func CheckC02(e *Env) int {
 	addSamples(rep, results, 3)
 	// value sources: the same expression text written in two packages that declare the same
 	// names with different values — each consumer must receive its own package's value
+	// ... and literals in every spelling: the consumer receives exactly the written number
+	runValueCases(e, rep, c13LiteralExprs(), "c02v")
 	tp, tkeys, tpairs := c13TwinProgram("wtwin")
 	tres := RunPool(e, []*Program{tp}, PoolOpts{Execute: true, Name: "c02tw", BatchSize: 1})
 	judgeTwin(rep, tres[0], tkeys, tpairs)
